@@ -79,6 +79,23 @@ theorem check_iff (p : Prims) (t : Table) (q : Name) (k : Key) :
       cases k; cases k'; simp_all
     · intro hk; rw [hk]
 
+/-- **The whole mapping API reports the effective keys only**: every pair of `items()` (hence every element of
+`values()`, every `get`) is a key type of a matching entry together with the first entry's key of that type — never a
+shadowed later key; there is one pair per matching entry (`len`, iteration, `keys()`). -/
+theorem subItems_effective (es : List Entry) :
+    (subItems es).length = es.length ∧ (subItems es).map (·.1) = subKeys es ∧
+    ∀ x ∈ subItems es, ∃ k, x.2 = some k ∧ subGet es x.1 = some k ∧ k.type = x.1 := by
+  refine ⟨by simp [subItems], by simp [subItems, subKeys], ?_⟩
+  intro x hx
+  simp only [subItems, List.mem_map] at hx
+  obtain ⟨e, he, rfl⟩ := hx
+  cases h : subGet es e.key.type with
+  | none => exact absurd rfl ((subGet_eq_none es e.key.type).mp h e he)
+  | some k =>
+    refine ⟨k, rfl, rfl, ?_⟩
+    obtain ⟨_, e', _, _, hk, hty, _⟩ := (subGet_eq_some es e.key.type k).mp h
+    rw [← hk]; exact hty
+
 /-! ## loading the same file again changes nothing -/
 
 private theorem hasEntry_append (p : Prims) (t extra : Table) (h : Name) (k : Key) (hh : hasEntry p t h k = true) :
